@@ -537,11 +537,41 @@ Proof.
     cbn [agrees wpath]. exists tt, node. split; [|reflexivity]. rewrite app_nil_r. unfold rs_of. reflexivity.
 Qed.
 
+(* ---- ovni_proc_fini, ovni_flush *)
+(* ovni_proc_fini as generated (single caller: the compare-exchange READY -> GONE, refused when the process is not ready;
+   try_clean_dir is outside the metadata state) = the model's ProcFini case *)
+Theorem proc_fini_from_source sx s th node out :
+  agrees sx th out (ovni_proc_fini sx (rs_of s th node out)) (step src_cfg s th ProcFini) no_val.
+Proof.
+  unfold step. cbn [in_dom negb]. unfold ovni_proc_fini, rs_of, proc_ready.
+  cbv [bind bind_ eval ite ret fail cas_rproc_st with_proc try_clean_dir get_rproc_move_to_final get_rproc_procdir
+       get_rproc_loomdir get_rproc_tmpdir fst snd
+       p_st p_app p_loom p_pid r_ready r_finished r_tid r_cpus r_node r_rank_set r_rank r_nranks r_meta r_out].
+  destruct (st_proc s) eqn:PS; cbn [enc_pst]; try reflexivity.
+  change (c_ST_READY =? c_ST_READY) with true. cbv iota. change (1 =? 0) with false. cbn [negb].
+  destruct (e_move sx =? 0); cbn [negb agrees wpath]; exists tt, node; (split; [|reflexivity]);
+    rewrite app_nil_r; unfold rs_of; reflexivity.
+Qed.
+
+(* ovni_flush as generated: the guards on rthread.ready and rproc.st; building and adding the two flush events and writing the
+   buffer are the event-buffer model's (unit rtbuf), the identity on the metadata state = the model's Flush case *)
+Theorem flush_from_source sx s th node out :
+  agrees sx th out (ovni_flush sx (rs_of s th node out)) (step src_cfg s th Flush) no_val.
+Proof.
+  unfold step. cbn [in_dom negb]. unfold ovni_flush, rs_of, proc_ready.
+  destruct (tget (st_threads s) th) as [rd fin tid cpus rank meta] eqn:T.
+  cbv [bind bind_ eval ite ret fail get_rthread_ready get_rproc_st ovni_clock_now ovni_ev_set_clock ovni_ev_set_mcv flush_evbuf
+       ovni_ev_add p_st r_ready t_ready].
+  destruct rd; cbn [b2z Z.eqb negb]; [|reflexivity].
+  rewrite enc_ready. destruct (st_proc s) eqn:PS; cbn [negb]; try reflexivity.
+  cbn [agrees wpath]. exists tt, node. split; [|reflexivity]. rewrite app_nil_r. unfold rs_of. rewrite T, PS. reflexivity.
+Qed.
+
 (* ------------------------------------------------------------------ all translated calls at once *)
-(* What "the generated code computes the step of the model" means for each call of the API whose C function is translated
-   and proved here.  NOT covered (the model's step stands alone for them): ovni_proc_fini / ovni_flush
-   (not metadata functions of the unit), (the event-buffer / stream-file calls inside ovni_thread_init and ovni_thread_free are primitives of RtMetaPre.v outside
-   the metadata state: units rtbuf / rtfs). *)
+(* What "the generated code computes the step of the model" means, for EVERY call of the API (each C function is translated
+   and proved above).  Inside them, the event-buffer / stream-file / directory calls (ovni_thread_init, ovni_thread_free,
+   ovni_flush, ovni_proc_init, ovni_proc_fini) are primitives of RtMetaPre.v outside the metadata state: units rtbuf / rtfs;
+   the compare-exchange of ovni_proc_init / ovni_proc_fini is the single-caller view: unit rtconc. *)
 Definition call_agrees (sx : renv) (s : state) (th : nat) (node : Z * Z) (out : list (str * json)) (o : op) : Prop :=
   match o with
   | AddCpu i p => agrees sx th out (ovni_add_cpu i p sx (rs_of s th node out)) (step src_cfg s th o) no_val
@@ -569,7 +599,8 @@ Definition call_agrees (sx : renv) (s : state) (th : nat) (node : Z * Z) (out : 
     agrees sx th out (ovni_proc_init app (Some loom) pid sx (rs_of s th node out)) (step src_cfg s th o) no_val
   | ThreadInit tid => path_ok sx tid = true ->
                       agrees sx th out (ovni_thread_init tid sx (rs_of s th node out)) (step src_cfg s th o) no_val
-  | _ => True
+  | Flush => agrees sx th out (ovni_flush sx (rs_of s th node out)) (step src_cfg s th o) no_val
+  | ProcFini => agrees sx th out (ovni_proc_fini sx (rs_of s th node out)) (step src_cfg s th o) no_val
   end.
 
 Theorem metadata_calls_from_source sx s th node out o :
@@ -591,7 +622,9 @@ Proof.
   - apply attr_get_boolean_from_source.
   - apply attr_get_json_from_source.
   - apply attr_flush_from_source. exact P.
+  - apply flush_from_source.
   - apply thread_free_from_source. exact P.
+  - apply proc_fini_from_source.
 Qed.
 
 (* whole programs: along the run of the model, every call is what the generated function computes from the concretisation
